@@ -4,7 +4,7 @@ From Coq Require Import List Arith Reals.
 From Coquelicot Require Import Coquelicot.
 Import ListNotations.
 Require Import Base.C09_Poly Base.C09_PolyQ Base.C09_PolyReal Base.C20_Ring Model.C20_Tensor Model.C10_Map Model.C10_IsoPoly.
-Require Import Proofs.C10_IsoPolyProofs Proofs.C10_IsoPolyReal Gen.C10Gen Gen.C10GenPoly Dyn.C10_Iso.
+Require Import Proofs.C10_IsoPolyProofs Proofs.C10_IsoPolyReal Gen.C10Gen Gen.C10GenPoly Gen.C10GenPolyH Dyn.C10_Iso.
 Local Close Scope R_scope.
 Local Close Scope Q_scope.
 
@@ -33,3 +33,8 @@ Proof.
 Qed.
 Print Assumptions iso_inverse_of_delivered_J_R.
 
+
+(* normals of a hexahedron: adj(J)^T N_s is orthogonal to both tangents of the (bilinear) facet map, every local facet *)
+Theorem iso_normal_orthogonal_hex1 : normal_orthogonal_Q 3 (@iso_adj_3 poly PolyOps) hex1_dphi hex1_psi hex1_facets_n.
+Proof. exact (normal_sound_Q _ _ _ _ _ hex1_normal_orthogonal_to_dG). Qed.
+Print Assumptions iso_normal_orthogonal_hex1.
